@@ -22,6 +22,7 @@
 #include "wait_internal.h"
 #include "common.h"
 #include "atomic.h"
+#include "nsync_waiter.h"
 #include "vrt.h"
 #include <stdio.h>
 #include <errno.h>
@@ -387,6 +388,48 @@ static void m5_finisher (void *a) {
 	wsection_end (); nsync_mu_unlock (&mu);
 }
 
+/* MODE 6 (round-6 seeded change C06e): a conditional waiter M queued on the mutex, a READER-mode cv waiter C, an nsync_wait_n caller N on the
+   same cv (not a mutex waiter: it makes all_readers false and is never transferred), and a thread S that, once all three are asleep, signals
+   or broadcasts the cv under a READ lock -- wake_waiters takes the mutex spinlock (setting MU_WAITING, which is already set for M), transfers
+   nobody, and must NOT take the bit back because M is queued -- and then makes M's condition true in a write section ended by nsync_mu_unlock.
+   M has no deadline: if that unlock does not scan the queue the run ends STUCK. */
+#define M6_GO 17
+static int m6_tid[3];
+static void m6_mwaiter (void *a) {
+	int writer = (int) (long) a, r;
+	if (writer) { nsync_mu_lock (&mu); wsection_begin (); wsection_end (); } else { nsync_mu_rlock (&mu); vrt_acquired (&mu, 0); vrt_releasing (&mu, 0); }
+	announce_wait (nonzero, &b0, 0, 0, nsync_time_no_deadline, 0);
+	r = nsync_mu_wait_with_deadline (&mu, nonzero, &b0, NULL, nsync_time_no_deadline, NULL);
+	vrt_note ("mwret %d %d", vrt_self (), r);
+	if (writer) wsection_begin (); else vrt_acquired (&mu, 0);
+	if (r != 0 || x[0] == 0) vrt_fail ("C05", "nsync_mu_wait without deadline returned %d with x[0] = %d", r, x[0]);
+	if (writer) { wsection_end (); nsync_mu_unlock (&mu); } else { vrt_releasing (&mu, 0); nsync_mu_runlock (&mu); }
+	vrt_count ("ret_true");
+}
+static void m6_cvreader (void *a) {
+	nsync_mu_rlock (&mu); vrt_acquired (&mu, 0);
+	while (!vrt_sh_get (M6_GO)) { vrt_releasing (&mu, 0); nsync_cv_wait (&cv, &mu); vrt_acquired (&mu, 0); }
+	vrt_releasing (&mu, 0); nsync_mu_runlock (&mu);
+}
+static void m6_waitn (void *a) {
+	struct nsync_waitable_s w, *pw[1];
+	w.v = &cv; w.funcs = &nsync_cv_waitable_funcs; pw[0] = &w;
+	(void) nsync_wait_n (NULL, NULL, NULL, nsync_time_no_deadline, 1, pw);
+}
+static void m6_signaller (void *a) {
+	while (!vrt_is_blocked (m6_tid[0]) || !vrt_is_blocked (m6_tid[1]) || !vrt_is_blocked (m6_tid[2])) vrt_yield ();
+	nsync_mu_rlock (&mu); vrt_acquired (&mu, 0);
+	vrt_sh_set (M6_GO, 1);
+	if (vrt_rand (2)) nsync_cv_signal (&cv); else nsync_cv_broadcast (&cv);
+	if (vrt_rand (2)) vrt_point ("after-wake-under-rlock");
+	vrt_releasing (&mu, 0); nsync_mu_runlock (&mu);
+	nsync_cv_broadcast (&cv);                       /* whoever the signal did not take (outside any lock: wakes, does not transfer) */
+	nsync_mu_lock (&mu); wsection_begin ();
+	x[0] = 1; vrt_note ("setc %d 0 0 1", vrt_self ()); vrt_note ("setc %d 0 1 1", vrt_self ());
+	wsection_end (); nsync_mu_unlock (&mu);
+	vrt_count ("set");
+}
+
 int main (void) {
 	int i, nw = 2 + (int) vrt_rand (3);
 	static char nm[12][8];
@@ -399,6 +442,16 @@ int main (void) {
 		vrt_thread ("S", m3_signaller, NULL);
 		if (vrt_rand (2)) vrt_thread ("R", m3_reader, NULL);
 		vrt_thread ("F", m3_finisher, NULL);
+		vrt_run ();
+		printf ("VRT-END ok\n");
+		return 0;
+	}
+	if (vrt_opt ("MODE", 0) == 6) {
+		m6_tid[0] = vrt_thread ("M", m6_mwaiter, (void *) (long) vrt_rand (2));
+		m6_tid[1] = vrt_thread ("C", m6_cvreader, NULL);
+		m6_tid[2] = vrt_thread ("N", m6_waitn, NULL);
+		vrt_thread ("S", m6_signaller, NULL);
+		if (vrt_rand (2)) vrt_thread ("R", m3_reader, NULL);
 		vrt_run ();
 		printf ("VRT-END ok\n");
 		return 0;
